@@ -145,7 +145,7 @@ func GenZFrame(r *rand.Rand, p []byte) *ZFrame {
 // GenZStreams: n zstd bodies, encoded by the model, intact and damaged.
 func GenZStreams(r *rand.Rand, n, nBig int) ([]FStream, error) {
 	kinds := []string{"valid", "valid", "multi", "multi", "skip", "skip-only", "empty", "trunc", "trunc", "trunc-multi", "stray", "garbage",
-		"flip-sum", "flip-sum", "flip-nosum", "flip-hdr", "fcs-wrong", "reserved-bit", "dict", "big-window", "block-gt-window", "block-gt-128k",
+		"flip-sum", "flip-sum", "flip-nosum", "flip-hdr", "fcs-wrong", "reserved-bit", "dict", "big-window", "block-gt-window",
 		"boundary-srcerr", "inside-srcerr"}
 	type zspec struct {
 		kind    string
@@ -156,7 +156,10 @@ func GenZStreams(r *rand.Rand, n, nBig int) ([]FStream, error) {
 	for i := 0; i < n+nBig; i++ {
 		sp := &zspec{kind: kinds[r.Intn(len(kinds))]}
 		if i >= n {
-			sp.kind = verifh.Pick(r, []string{"valid", "valid", "trunc"})
+			sp.kind = verifh.Pick(r, []string{"valid", "trunc", "block-gt-128k"})
+			if i == n {
+				sp.kind = "block-gt-128k" // at least one per run: the 128 KiB boundary
+			}
 		}
 		nf := 1
 		switch sp.kind {
